@@ -848,16 +848,16 @@ Qed.
 Lemma rp_close_target : forall T0 BLKS stf st, rp_G1c T0 BLKS stf st -> rp_done T0 BLKS stf (wm_close_signal summ1 summN st sid).
 Proof.
   intros T0 BLKS stf st (Hoth & s & f & Hfind & Hdef & Hfsr & Hits & HF).
+  destruct (rp_close_target_eq st s f _ Hfind Hfsr Hdef Hits eq_refl) as (s3 & Est & Eid3 & Hi3).
+  rewrite Est. clear Est.
   pose proof (rp_FInv_close summ1 summN d pos0 Hpos0 Hsid Hg_idx Hg_sum Hspd Hw Hg_data Hfill T0 BLKS stf (rp_fx st s f) HF) as P.
-  cbv zeta in P. remember (wm_fsr_close summ1 summN d (rp_fx st s f)) as X eqn:EX.
+  revert P. generalize (wm_fsr_close summ1 summN d (rp_fx st s f)). intros X P. cbv zeta in P.
   destruct P as (cs & new & HF2 & Hfil & _ & Hbok & _).
-  destruct (rp_close_target_eq st s f X Hfind Hfsr Hdef Hits (eq_sym EX)) as (s3 & Est & Eid3 & Hi3).
-  clear EX. rewrite Est. unfold rf_out in Hfil.
   split; [exact Hbok|]. split.
   - unfold wm_put_sig. cbn [wm_st_sigs]. apply Forall_forall. intros y Hy. apply in_map_iff in Hy. destruct Hy as (y0 & <- & Hy0).
     rewrite Forall_forall in Hoth. destruct (N.eqb_spec (wm_sig_id y0) (wm_sig_id s3)) as [E|E]; [exact Hi3|].
     destruct (Hoth y0 Hy0) as [E'|Hi]; [rewrite Eid3 in E; contradiction|exact Hi].
-  - exists cs. split; [exact HF2|]. unfold rp_bout, wm_put_sig. cbn [wm_st_base]. exact Hfil.
+  - exists cs. split; [exact HF2|]. exact Hfil.
 Qed.
 
 (* the loop of jls_wr_close over the signal ids *)
@@ -875,8 +875,82 @@ Proof.
   intros [E|Hin]; [|apply B; exact Hin]. subst id.
   assert (Hd : rp_done T0 BLKS stf (wm_close_signal summ1 summN st sid)).
   { destruct H as [HG|HD]; [apply rp_close_target; exact HG|apply rp_close_done; exact HD]. }
-  clear - Hd rp_close_done. revert Hd. generalize (wm_close_signal summ1 summN st sid). induction l as [|i l IHl]; intros s0 Hd; [exact Hd|].
+  clear - Hd. revert Hd. generalize (wm_close_signal summ1 summN st sid). induction l as [|i l IHl]; intros s0 Hd; [exact Hd|].
   cbn [fold_left]. apply IHl. apply rp_close_done. exact Hd.
+Qed.
+
+
+(* the END chunk and the final file header *)
+Lemma rp_finish : forall b, rf_bok b ->
+  let b1 := wm_core_wr_end b in
+  let r2 := wm_raw_close (wm_b_raw b1) in
+  wm_fault r2 = false /\
+  exists c, rp_out (rf_scan (wm_rlog r2)) = c :: rp_bout b /\ rc_tag c = JLS_TAG_END.
+Proof.
+  intros b (Hr & _) b1 r2. subst b1 r2. unfold wm_core_wr_end.
+  pose proof (rf_raw_wr_chunk (wm_b_raw b) (wm_mk_hdr 0 JLS_TAG_END 0 0) [] Hr ltac:(discriminate) ltac:(reflexivity) ltac:(reflexivity) ltac:(reflexivity) ltac:(reflexivity)) as X.
+  cbv zeta in X. destruct (wm_raw_wr (wm_b_raw b) (wm_mk_hdr 0 JLS_TAG_END 0 0) []) as [r1 h1]. cbn [fst snd] in X.
+  destruct X as (Hr1 & Hfe1 & Hout1 & _).
+  cbn [wm_b_raw wm_b_set_raw].
+  destruct Hr1 as ((Ho1 & Hf1 & Hflt1) & H321 & Hend1 & Hpend1 & _).
+  unfold wm_raw_close, wm_wr_file_header.
+  set (hb := wm_file_header_bytes (wm_fend r1)).
+  assert (Hlog : forall r', wm_rlog r' = WmWrite 0 hb :: wm_rlog r1 -> rp_out (rf_scan (wm_rlog r')) = rp_out (rf_scan (wm_rlog r1))).
+  { intros r' E. rewrite E, rf_scan_cons. rewrite rf_step_skip; [reflexivity|exact Hpend1|left; rewrite Hend1; lia]. }
+  destruct (N.eqb_spec (wm_fpos r1) 0) as [E0|_]; [lia|].
+  split; [exact Hflt1|].
+  eexists. split; [|reflexivity].
+  rewrite (Hlog _ eq_refl). exact Hout1.
+Qed.
+
+(* ---- the whole program ---- *)
+Lemma rp_steps_fold : forall p st acc,
+  fst (wm_steps summ1 summN st p acc) = fold_left (fun st o => fst (wm_step_rc summ1 summN st o)) p st.
+Proof.
+  induction p as [|o p IH]; intros st acc; [reflexivity|]. cbn [wm_steps fold_left].
+  destruct (wm_step_rc summ1 summN st o) as [st1 rc] eqn:E. cbn [fst]. apply IH.
+Qed.
+
+Lemma rp_G0_steps : forall p st, rp_G0 st -> Forall (rp_ok sid) p ->
+  Forall (fun o => match o with WSig d' => sg_id d' <> sid | _ => True end) p ->
+  rp_G0 (fold_left (fun st o => fst (wm_step_rc summ1 summN st o)) p st).
+Proof.
+  induction p as [|o p IH]; intros st HG Hok Hns; [exact HG|]. cbn [fold_left].
+  inversion Hok; subst. inversion Hns; subst. apply IH; [apply rp_G0_step; assumption|assumption|assumption].
+Qed.
+
+Lemma rp_G1_steps : forall p T0 BLKS stf st, rp_G1 T0 BLKS stf st (rp_proj sid p) -> Forall (rp_ok sid) p ->
+  rp_G1 T0 BLKS stf (fold_left (fun st o => fst (wm_step_rc summ1 summN st o)) p st) [].
+Proof.
+  induction p as [|o p IH]; intros T0 BLKS stf st HG Hok; [exact HG|]. cbn [fold_left].
+  inversion Hok; subst. apply IH; [apply rp_G1_step; assumption|assumption].
+Qed.
+
+Lemma rp_G0_open : sid <> 0 -> rp_G0 wm_api_open.
+Proof.
+  intro Hne. split; [apply rf_bokb_ok; vm_compute; reflexivity|].
+  split. { unfold wm_find_sig. change (wm_st_sigs wm_api_open) with [match wm_st_sigs wm_api_open with s :: _ => s | [] => hd_error_default end] || idtac.
+           assert (E : map wm_sig_id (wm_st_sigs wm_api_open) = [0]) by (vm_compute; reflexivity).
+           destruct (wm_st_sigs wm_api_open) as [|s0 [|s1 l]]; try discriminate E. cbn [map] in E. injection E as E.
+           cbn [find]. rewrite E. destruct (N.eqb_spec 0 sid); [congruence|reflexivity]. }
+  split.
+  { unfold rp_others. assert (E : forallb (fun s => match wm_sg_fsr s with None => true | Some _ => false end
+                                                   && match wm_sg_anno s with None => true | Some ts => forallb (fun o => match o with None => true | Some _ => false end) (wm_ts_levels ts) && Nat.eqb (length (wm_ts_levels ts)) 16 end
+                                                   && match wm_sg_utc s with None => true | Some _ => false end
+                                                   && negb (sg_type (wm_sg_def s) =? JLS_SIGNAL_TYPE_FSR)) (wm_st_sigs wm_api_open) = true) by (vm_compute; reflexivity).
+    rewrite forallb_forall in E. apply Forall_forall. intros s Hs. specialize (E s Hs). right.
+    apply andb_true_iff in E as [E E4]. apply andb_true_iff in E as [E E3]. apply andb_true_iff in E as [E1 E2].
+    split.
+    - unfold rp_idle. destruct (wm_sg_fsr s); [discriminate E1|]. destruct (wm_sg_utc s); [discriminate E3|].
+      split; [exact I|]. split; [|exact I]. destruct (wm_sg_anno s) as [ts|]; [|exact I].
+      apply andb_true_iff in E2 as [Ea Eb]. apply Nat.eqb_eq in Eb. rewrite forallb_forall in Ea.
+      clear - Ea Eb. revert Eb Ea. generalize (wm_ts_levels ts). intros l Hl Hn.
+      do 16 (destruct l as [|? l]; [discriminate Hl|]). destruct l; [|discriminate Hl].
+      repeat match goal with o : option wm_ts_level |- _ => let H := fresh in assert (H : o = None) by (destruct o; [specialize (Hn (Some w) ltac:(cbn; tauto)); discriminate Hn|reflexivity]); subst o end.
+      reflexivity.
+    - intro Ht. rewrite Ht in E4. discriminate E4. }
+  assert (E : forallb rp_plain (rp_bout (wm_st_base wm_api_open)) = true) by (vm_compute; reflexivity).
+  rewrite forallb_forall in E. apply Forall_forall. exact E.
 Qed.
 
 End RPG.
